@@ -568,7 +568,7 @@ def monitor_c14(se, stats):
         for key, ch in cur["chans"].items():
             for cm in ch["consumers"]:
                 if cm["status"] != 1:
-                    want.setdefault(cm["queue"], []).append(cm["tag"])
+                    want.setdefault(cm["queue"], []).append("%d.%d:%s" % (key[0], key[1], cm["tag"]))
         for qn, q in cur["queues"].items():
             stats["queue_consumer_lists"] = stats.get("queue_consumer_lists", 0) + 1
             if sorted(q["consumers"]) != sorted(want.get(qn, [])):
